@@ -339,6 +339,8 @@ func (conn *Conn) initialise() {
 	conn.in = make(chan *Line, 32)
 	conn.out = make(chan string, 32)
 	conn.die = nil
+	conn.supportedCaps.Clear()
+	conn.currCaps.Clear()
 	if conn.st != nil {
 		conn.st.Wipe()
 	}
